@@ -12,5 +12,5 @@ Extraction "model.ml"
   mcall oq_methods oq_vt meth abs oq_init
   uf_init ustep uenabled uf_tellg_val uf_tellp_val uf_good uf_eof c_size
   bq_init bq_step bq_read_ok bq_write_ok bq_obs
-  f_write_session f_read_session C_stats fid_of
+  f_write_session f_read_session f_read_session_closing f_read_session_closing_old C_stats fid_of
   Z.of_nat Z.to_nat Z.add Z.mul Z.sub Z.div Z.modulo Z.compare Z.eqb Z.ltb Z.opp Z.div_eucl.
